@@ -22,3 +22,7 @@ def run(ctx, rep):
     more5.rule_transpose(mod, rep)
     from ..rules import more6 as _m6
     _m6.rule_pivot_column(mod, rep)
+    from ..rules import more6 as _m6b
+    _m6b.rule_snode_boundary(mod, rep)
+    from ..rules import more3 as _m3
+    _m3.rule_prune_guard(mod, rep)
